@@ -66,6 +66,9 @@ func (t *Time) MarshalJSON() ([]byte, error) {
 // UnmarshalJSON implements the json.Unmarshaler interface. The time must be a
 // quoted string in the "15:04:05.999999999" format.
 func (t *Time) UnmarshalJSON(data []byte) error {
+	if len(data) < len(`""`) {
+		return fmt.Errorf("%w: Cannot parse %s as %q", ErrSQLType, data, timeFormat)
+	}
 	tim, err := time.Parse(timeFormat, string(data[1:len(data)-1]))
 	if err != nil {
 		return fmt.Errorf(
